@@ -56,7 +56,7 @@ def build(torch, gpytorch, kind, x, y):
         lik = gpytorch.likelihoods.MultitaskGaussianLikelihood(num_tasks=2)
         model = G.ExactModel(x, y, lik, "mtask", x.shape[-1])
     else:
-        lik = gpytorch.likelihoods.GaussianLikelihood(batch_shape=x.shape[:-2]) if kind == "batch" else gpytorch.likelihoods.GaussianLikelihood()
+        lik = gpytorch.likelihoods.GaussianLikelihood(batch_shape=x.shape[:-2]) if kind.startswith("batch") else gpytorch.likelihoods.GaussianLikelihood()
         model = G.ExactModel(x, y, lik, "exact", x.shape[-1])
     model = model.to(torch.float64)
     lik = lik.to(torch.float64)
@@ -78,7 +78,10 @@ def run_case(torch, gpytorch, c):
     kind, pols = c["kind"], c["policies"]
     g = torch.Generator().manual_seed(c["seed"])
     n = c["n"]
-    bshape = (2,) if kind == "batch" else ()
+    bshape = (2,) if kind == "batch" else ((2, 2) if kind == "batch2" else ())      # batch2: two batch dimensions
+    B = 1
+    for b_ in bshape:
+        B *= b_
     tshape = (2,) if kind == "mtask" else ()
     x = torch.rand(*bshape, n, 1, generator=g, dtype=torch.float64) * 2 - 1
     xs = torch.rand(3, 1, generator=g, dtype=torch.float64) * 2 - 1
@@ -120,24 +123,23 @@ def run_case(torch, gpytorch, c):
         """posterior at the test points given the observed training entries (per batch element for fill; the union
         of missing entries over the batch for mask, as documented)"""
         outs_m, outs_c = [], []
-        B = 2 if bshape else 1
+        missf, Kf, Knf, muf, yf = (miss.reshape(B, *miss.shape[len(bshape):]), K.reshape(B, *K.shape[len(bshape):]), Kn.reshape(B, *Kn.shape[len(bshape):]),
+                                   mu.reshape(B, -1), yfull.reshape(B, -1))
         for b in range(B):
-            mb = miss[b] if bshape else miss
+            mb = missf[b]
             if policy == "mask" and bshape:
-                mb = miss.any(0)
+                mb = missf.any(0)
             obs = (~mb).reshape(-1)
             idx = obs.nonzero().squeeze(-1)
-            Kb = K[b] if bshape else K
-            Knb = Kn[b] if bshape else Kn
-            mub = mu[b] if bshape else mu
-            yb = (yfull[b] if bshape else yfull).reshape(-1)
+            Kb, Knb, mub, yb = Kf[b], Knf[b], muf[b], yf[b]
             A = Knb[:ntr, :ntr][idx][:, idx]
             Ksx = Kb[ntr:, :ntr][:, idx]
             sol = torch.linalg.solve(A, (yb[idx] - mub[:ntr][idx]).unsqueeze(-1)).squeeze(-1)
             outs_m.append(mub[ntr:] + Ksx @ sol)
             outs_c.append(Kb[ntr:, ntr:] - Ksx @ torch.linalg.solve(A, Ksx.T))
         if bshape:
-            return torch.stack(outs_m), torch.stack(outs_c)
+            om, oc = torch.stack(outs_m), torch.stack(outs_c)
+            return om.reshape(*bshape, *om.shape[1:]), oc.reshape(*bshape, *oc.shape[1:])
         return outs_m[0], outs_c[0]
 
     for step, p in enumerate(pols):
@@ -163,7 +165,7 @@ def run_case(torch, gpytorch, c):
         good, why = core.close(cov.reshape(rc.shape), rc, 1e-7, 1e-9)
         res("covariance", good, "step %d policy %s: posterior covariance differs from conditioning on the observed entries only: %s" % (step, p, why), step)
     # objective and likelihood terms
-    if kind in ("single", "batch") and "mask" in pols:
+    if kind in ("single", "batch", "batch2") and "mask" in pols:
         c["lastpol"] = "mask"
         model.train()
         lik.train()
@@ -174,7 +176,7 @@ def run_case(torch, gpytorch, c):
             res("mll-raises", False, str(v))
         else:
             # deleted-data reference, rescaled by the counts: N * mll_mask = N_obs * mll_deleted
-            mm = miss.any(0) if bshape else miss
+            mm = miss.reshape(B, -1).any(0) if bshape else miss
             keep = (~mm).nonzero().squeeze(-1)
             xd, yd = x[..., keep, :], yfull[..., keep]
             dm, dl = build(torch, gpytorch, kind, xd, yd)
@@ -186,7 +188,7 @@ def run_case(torch, gpytorch, c):
             res("mll", good and not torch.isnan(v).any(), "N * mll under mask differs from N_obs * mll of the deleted data set: " + why)
         model.eval()
         lik.eval()
-    if kind in ("single", "mtask", "batch"):
+    if kind in ("single", "mtask", "batch", "batch2"):
         with torch.no_grad():
             fdist = model.forward(x)
             for p in ("mask", "fill"):
@@ -199,7 +201,7 @@ def run_case(torch, gpytorch, c):
                 with settings.observation_nan_policy("ignore"):
                     full_e, full_l = lik.expected_log_prob(yfull, fdist), lik.log_marginal(yfull, fdist)
                 # which entries count: fill = per element; mask = an entry missing in any batch element is masked for the whole batch
-                eff = miss if (p == "fill" or not bshape) else miss.any(0, keepdim=True).expand_as(miss)
+                eff = miss if (p == "fill" or not bshape) else miss.reshape(B, -1).any(0).expand_as(miss)
                 for nm, got, full in (("expected_log_prob", v[0], full_e), ("log_marginal", v[1], full_l)):
                     if torch.isnan(got).any():
                         res(nm, False, "%s: NaN in %s" % (p, nm))
@@ -306,6 +308,17 @@ def run(ck):
             pat[0] = pat[nn] = False
         for seq in seqs[:: (1 if thorough else 3)]:
             cases.append(dict(kind="batch", n=nn, missing=pat, policies=list(seq), seed=ck.seed * 100 + 80 + k))
+    for k in range(20 if thorough else 6):          # two batch dimensions (the mask is the union over ALL batch dimensions)
+        nn = 3
+        pat = [rnd.random() < 0.25 for _ in range(nn * 4)]
+        if k == 0:
+            pat = [False] * (nn * 4)
+        u = [any(pat[b * nn + i] for b in range(4)) for i in range(nn)]
+        if all(u):
+            for b in range(4):
+                pat[b * nn] = False
+        for seq in seqs[:: (1 if thorough else 3)]:
+            cases.append(dict(kind="batch2", n=nn, missing=pat, policies=list(seq), seed=ck.seed * 100 + 120 + k))
     # value class "an observed target equals the fill sentinel" (NanPolicy.tla instances with y = -999 at an observed index)
     cases += [dict(cc, sentinel=True) for i, cc in enumerate(cases) if (thorough and i % 2 == 0) or i % 5 == 0]
     items = [dict(cases=cases[i:i + 8]) for i in range(0, len(cases), 8)]
